@@ -77,6 +77,8 @@ pub struct MObj {
     pub map_live: bool,
     pub map_buffered: Tri,
     pub map_side_addr: usize,
+    /// further cleaner-map boxes allocated for this object's cleaner while one already existed (re-entrant register)
+    pub spare_maps: Vec<usize>,
     /// number of Cleanable handles (Weak<CleanerMap>) to this object's cleaner map held by the program
     pub cleaner_enter_seen: bool,
     pub cleaner_exit_seen: bool,
@@ -111,6 +113,7 @@ impl MObj {
             map_live: false,
             map_buffered: Tri::Out,
             map_side_addr: 0,
+            spare_maps: Vec::new(),
             cleaner_enter_seen: false,
             cleaner_exit_seen: false,
             spec,
